@@ -1,6 +1,8 @@
 """C15 worker: compiles generated source modules with and without a source map in a fresh interpreter.
 
-argv[1] = directory with the generated modules; stdin = {"main": module name, "version": v, "annotate": bool, "headers": bool, "concise": bool}
+argv[1] = directory with the generated modules; stdin = {"main": module name, "version": v, "annotate": bool, "headers": bool,
+"concise": bool, "steps": [relative working directory or null, ...]}: one compilation per step, after os.chdir() into
+<argv[1]>/<dir> when the step names one (the directories exist).  stdout = {"runs": [result per step]}.
 """
 import json
 import os
@@ -8,7 +10,7 @@ import sys
 
 REPO = os.environ.get("VERIF_REPO", "/repo")
 sys.path.insert(0, REPO)
-src_dir = sys.argv[1]
+src_dir = os.path.realpath(sys.argv[1])
 sys.path.insert(0, src_dir)
 from feature_gates import FeatureGates  # noqa: E402
 
@@ -18,29 +20,47 @@ import pyteal as pt  # noqa: E402
 assert os.path.realpath(pt.__file__).startswith(os.path.realpath(REPO) + os.sep), pt.__file__
 job = json.load(sys.stdin)
 mod = __import__(job["main"])
-out = {}
-try:
-    mode = pt.Mode.Application
-    plain = pt.compileTeal(mod.program(), mode, version=job["version"])
-    out["plain"] = plain
-    comp = pt.Compilation(mod.program(), mode, version=job["version"])
-    res = comp.compile(with_sourcemap=True, annotate_teal=job["annotate"], annotate_teal_headers=job["headers"], annotate_teal_concise=job["concise"])
-    out["with_map"] = res.teal
-    sm = res.sourcemap
-    r3 = sm.r3_sourcemap
-    out["source_root"] = r3.source_root
-    out["entries"] = [[k[0], k[1], e.source, e.source_line, e.source_column] for k, e in r3.entries.items()]
-    j = r3.to_json()
-    out["json"] = j
-    from pyteal.compiler.sourcemap import R3SourceMap
 
-    back = R3SourceMap.from_json(j)
-    out["roundtrip"] = [[k[0], k[1], e.source, e.source_line, e.source_column] for k, e in back.entries.items()]
-    out["annotated"] = sm.annotated_teal
-    # router programs compile through Router.compile as well
-except Exception as e:  # noqa
-    import traceback
 
-    out["error"] = "%s: %s" % (type(e).__name__, e)
-    out["trace"] = traceback.format_exc()[-1500:]
-json.dump(out, sys.stdout)
+def one_run():
+    out = {"cwd": os.getcwd()}
+    try:
+        mode = pt.Mode.Application
+        plain = pt.compileTeal(mod.program(), mode, version=job["version"])
+        out["plain"] = plain
+        comp = pt.Compilation(mod.program(), mode, version=job["version"])
+        res = comp.compile(with_sourcemap=True, annotate_teal=job["annotate"], annotate_teal_headers=job["headers"], annotate_teal_concise=job["concise"])
+        out["with_map"] = res.teal
+        sm = res.sourcemap
+        r3 = sm.r3_sourcemap
+        out["source_root"] = r3.source_root
+        out["entries"] = [[k[0], k[1], e.source, e.source_line, e.source_column] for k, e in r3.entries.items()]
+        j = r3.to_json()
+        out["json"] = j
+        # where does each named source resolve to (relative names are relative to sourceRoot, Source Map v3)?
+        resolved = {}
+        for s in set([e.source for e in r3.entries.values()] + list(j.get("sources", []))):
+            if s is None:
+                continue
+            p = s if os.path.isabs(s) else os.path.join(j.get("sourceRoot") or r3.source_root or os.getcwd(), s)
+            resolved[s] = os.path.realpath(p) if os.path.isfile(p) else None
+        out["resolved"] = resolved
+        from pyteal.compiler.sourcemap import R3SourceMap
+
+        back = R3SourceMap.from_json(j)
+        out["roundtrip"] = [[k[0], k[1], e.source, e.source_line, e.source_column] for k, e in back.entries.items()]
+        out["annotated"] = sm.annotated_teal
+    except Exception as e:  # noqa
+        import traceback
+
+        out["error"] = "%s: %s" % (type(e).__name__, e)
+        out["trace"] = traceback.format_exc()[-1500:]
+    return out
+
+
+runs = []
+for step in job.get("steps") or [None]:
+    if step is not None:
+        os.chdir(os.path.join(src_dir, step))
+    runs.append(one_run())
+json.dump({"runs": runs, "src_dir": src_dir}, sys.stdout)
